@@ -341,11 +341,7 @@ impl SchemaConverter {
             let has_null = any_of
                 .iter()
                 .any(|item| item.get("type").and_then(|v| v.as_str()) == Some("null"));
-            let mut result = types.join(" | ");
-            if has_null {
-                result.push('?');
-            }
-            return result;
+            return join_union(types, has_null);
         }
 
         // oneOf → check if it's a string enum or union
@@ -361,7 +357,7 @@ impl SchemaConverter {
                     }
                 })
                 .collect();
-            return types.join(" | ");
+            return join_union(types, false);
         }
 
         // type field
@@ -446,6 +442,26 @@ impl SchemaConverter {
             _ => "any".to_string(),
         }
     }
+}
+
+/// Join union members; `?` binds looser than `|`, so a nullable member (`string?`) makes the
+/// whole union nullable instead of being written in the middle of it.
+fn join_union(members: Vec<String>, mut nullable: bool) -> String {
+    let members: Vec<&str> = members
+        .iter()
+        .map(|m| match m.strip_suffix('?') {
+            Some(inner) => {
+                nullable = true;
+                inner
+            }
+            None => m.as_str(),
+        })
+        .collect();
+    let mut result = members.join(" | ");
+    if nullable {
+        result.push('?');
+    }
+    result
 }
 
 impl Default for SchemaConverter {
